@@ -136,14 +136,19 @@ func requiredProvenance(r *core.Run) {
 			continue
 		}
 		var live, foreign []string
-		for _, alt := range splitOp(val, token.LOR) {
-			if deadAlternative(pk, bd.fd, alt) {
-				continue
-			}
-			if isValidateRequired(info, inlinePredicate(pk, alt)) {
-				live = append(live, core.ExprStr(alt))
-			} else {
-				foreign = append(foreign, core.ExprStr(alt))
+		for _, top := range splitOp(val, token.LOR) {
+			// a helper that computes the flag is looked into, its parameters standing for the
+			// arguments of this call
+			inl, subst := inlinePredicate(pk, top)
+			for _, alt := range splitOp(inl, token.LOR) {
+				if deadAlternative(pk, bd.fd, alt, subst) {
+					continue
+				}
+				if isValidateRequired(info, alt) {
+					live = append(live, core.ExprStr(alt))
+				} else {
+					foreign = append(foreign, core.ExprStr(top))
+				}
 			}
 		}
 		switch {
@@ -158,26 +163,37 @@ func requiredProvenance(r *core.Run) {
 	r.Floor("R-PROV/required", 3, "array, map and singular properties")
 }
 
-// inlinePredicate replaces a call of a same-package function without arguments that only
-// computes one boolean expression by that expression (the receiver stays the callee's own
-// name: only the types of what it selects from matter to the caller of this).
-func inlinePredicate(pk *packages.Package, e ast.Expr) ast.Expr {
+// inlinePredicate replaces a call of a same-package function that only computes one boolean
+// expression by that expression; the second result maps the callee's parameters to the
+// arguments of the call.
+func inlinePredicate(pk *packages.Package, e ast.Expr) (ast.Expr, map[types.Object]ast.Expr) {
 	c, ok := core.Unparen(e).(*ast.CallExpr)
-	if !ok || len(c.Args) != 0 {
-		return e
+	if !ok {
+		return e, nil
 	}
 	fn := core.CalleeFunc(pk.TypesInfo, c)
 	if fn == nil || fn.Pkg() != pk.Types {
-		return e
+		return e, nil
 	}
 	fd := core.DeclOf(pk, fn.Origin())
 	if fd == nil || fd.Body == nil {
-		return e
+		return e, nil
 	}
-	if res := rules.ReturnedExpr(fd.Body.List, nil); res != nil {
-		return res
+	res := rules.ReturnedExpr(fd.Body.List, nil)
+	if res == nil {
+		return e, nil
 	}
-	return e
+	subst := map[types.Object]ast.Expr{}
+	i := 0
+	for _, fl := range fd.Type.Params.List {
+		for _, nm := range fl.Names {
+			if i < len(c.Args) {
+				subst[pk.TypesInfo.Defs[nm]] = c.Args[i]
+			}
+			i++
+		}
+	}
+	return res, subst
 }
 
 func propLiteral(e ast.Expr) *ast.CompositeLit {
@@ -236,7 +252,19 @@ func isValidateRequired(info *types.Info, e ast.Expr) bool {
 		s, ok := x.(*ast.SelectorExpr)
 		return ok && s.Sel.Name == "Required" && isFC(s.X)
 	}
-	parts := splitOp(e, token.LAND)
+	var parts []ast.Expr
+	for _, p := range splitOp(e, token.LAND) {
+		p = core.Unparen(p)
+		// `true` adds nothing; a negated test of the flag (the fall-through of an earlier
+		// `if required { return true }`) cannot make the result true by itself
+		if tv, ok := info.Types[p]; ok && tv.Value != nil && tv.Value.String() == "true" {
+			continue
+		}
+		parts = append(parts, p)
+	}
+	if len(parts) == 0 {
+		return false
+	}
 	for _, p := range parts {
 		p = core.Unparen(p)
 		switch x := p.(type) {
@@ -312,9 +340,14 @@ func soleDefinition(info *types.Info, id *ast.Ident) ast.Expr {
 // parameter P of fd, and every call of fd in the package is made after the
 // caller left for that kind of field (`if A.IsList() { …; continue|return }`
 // earlier in the same statement list, A being the argument passed for P).
-func deadAlternative(pk *packages.Package, fd *ast.FuncDecl, alt ast.Expr) bool {
+func deadAlternative(pk *packages.Package, fd *ast.FuncDecl, alt ast.Expr, subst map[types.Object]ast.Expr) bool {
 	info := pk.TypesInfo
+	var conj []ast.Expr
 	for _, cj := range splitOp(alt, token.LAND) {
+		// (a && b) nested in a conjunct written with parentheses
+		conj = append(conj, splitOp(cj, token.LAND)...)
+	}
+	for _, cj := range conj {
 		c, ok := core.Unparen(cj).(*ast.CallExpr)
 		if !ok || len(c.Args) != 0 {
 			continue
@@ -326,6 +359,14 @@ func deadAlternative(pk *packages.Package, fd *ast.FuncDecl, alt ast.Expr) bool 
 		id, ok := core.Unparen(s.X).(*ast.Ident)
 		if !ok {
 			continue
+		}
+		// a parameter of an inlined helper stands for the caller's argument
+		if arg, has := subst[info.ObjectOf(id)]; has {
+			if aid, isID := core.Unparen(arg).(*ast.Ident); isID {
+				id = aid
+			} else {
+				continue
+			}
 		}
 		pidx := paramIndex(info, fd, info.ObjectOf(id))
 		if pidx < 0 {
